@@ -1806,6 +1806,13 @@ def simp(v):
             return simp(subst(v[1][2], {tg: ("item", it, pos)}))
         if k == "item" and isinstance(pos, tuple) and pos and pos[0] == "star":
             return simp(("comp", "list", v[1][2], ((tg, ("item", it, pos), ()),)))
+    # a position table: {x: i for i, x in enumerate(L)}[k] is L.index(k) for a list of distinct elements (the species list: one slot per
+    # species, C09) -- the O(1) spelling of the same lookup
+    if k == "sub" and v[1][0] == "comp" and v[1][1] == "dict" and len(v[1][3]) == 1 and v[1][2][0] == "tuple" and len(v[1][2][1]) == 2:
+        tg, it, ifs = v[1][3][0]
+        if not ifs and tg is not None and tg[0] == "tuple" and len(tg[1]) == 2 and it[0] == "call" and it[1] == ("global", "enumerate") and len(it[2]) == 1 and not it[3] \
+                and v[1][2][1][0] == tg[1][1] and v[1][2][1][1] == tg[1][0] and tg[1][0] != tg[1][1]:
+            return simp(("meth", it[2][0], "index", (v[2],), ()))
     # a record keyed by literal names: dict(zip(("a", "b"), X))["b"] is X[1]
     if k == "sub" and v[2][0] == "const" and v[1][0] == "call" and v[1][1] == ("global", "dict") and len(v[1][2]) == 1 and not v[1][3] \
             and v[1][2][0][0] == "call" and v[1][2][0][1] == ("global", "zip") and len(v[1][2][0][2]) == 2 and not v[1][2][0][3] \
